@@ -602,11 +602,12 @@ def anchored(ctx, col):
     for c in own_nodes(conv):
         if isinstance(c, ast.Call) and isinstance(c.func, ast.Attribute) and c.func.attr in ("extend", "extendleft") and isinstance(c.func.value, ast.Name) and c.func.value.id in stacks and c.args:
             arg = c.args[0]
-            src = arg.generators[0].iter if isinstance(arg, (ast.GeneratorExp, ast.ListComp)) and len(arg.generators) == 1 else arg
             revs = 0
-            cur = src
+            cur = arg
             while True:
-                if isinstance(cur, ast.Call) and (dotted(cur.func) or "") == "reversed" and cur.args:
+                if isinstance(cur, (ast.GeneratorExp, ast.ListComp)) and len(cur.generators) == 1:
+                    cur = cur.generators[0].iter   # one frame per element (a filter drops some): the order of the iterable is kept
+                elif isinstance(cur, ast.Call) and (dotted(cur.func) or "") == "reversed" and cur.args:
                     revs += 1
                     cur = cur.args[0]
                 elif isinstance(cur, ast.Subscript) and isinstance(cur.slice, ast.Slice) and cur.slice.step is not None and norm_src(cur.slice.step) == "-1":
